@@ -1,5 +1,6 @@
 """C13 — metadata behaves as a dictionary persisted to metadata.json."""
 import ast
+from .C08 import CBATTR
 
 from ..rules import must_precede, must_follow, GateAnalysis, ModeGate
 from ..cfg import cfg_of, always_raises
@@ -48,7 +49,6 @@ def run(ctx):
 
 
 def d1_no_cache(ctx, c, reader):
-    allowed_kinds = {'_path', '_accessmode', '_callatfilecreationordeletion'}
     for a, lst in c.attr_exprs.items():
         for f, val, st in lst:
             bad = DICT in ctx.R.etype(val, f) or any(
@@ -76,12 +76,8 @@ def d1_no_cache(ctx, c, reader):
     # the reader itself returns {} only when the file does not exist (shared with C17 D4)
     for r in (x for x in own_nodes(reader.node) if isinstance(x, ast.Return)):
         if isinstance(r.value, ast.Dict) and not r.value.keys:
-            ok = False
-            for p, field in enclosing(reader.node, r):
-                if isinstance(p, ast.If) and field == 'body':
-                    t = p.test
-                    ok = isinstance(t, ast.UnaryOp) and isinstance(t.op, ast.Not) and is_exists_call(t.operand)
-                    break
+            from ._shared import default_only_when_absent
+            ok = default_only_when_absent(reader, r)
             ctx.decide(ok, 'R-BELIEF', 'D1', reader, r, 'empty-default',
                        'the reader returns {} only when metadata.json does not exist',
                        detail='an existing but empty/unparsable file is read as {}')
@@ -253,7 +249,7 @@ def d2_d3_d4_mutators(ctx, c, reader):
         for e in ctx.E.primitives(f):
             if e.kind == 'DELETE':
                 cbs = [n for n in own_nodes(f.node) if isinstance(n, ast.Call) and
-                       dotted(n.func) == 'self._callatfilecreationordeletion']
+                       dotted(n.func) == f'self.{CBATTR(ctx)}']
                 ctx.decide(bool(cbs) and must_follow(f, e.node, cbs), 'R-POST', 'D3', f, e.node, f'callback-after-unlink::{f.name}',
                            f'{f.qualname}: the creation/deletion callback follows the unlink',
                            detail='README is not regenerated after the metadata file was removed')
